@@ -132,6 +132,9 @@ def value_states(i, payload, other_payload, j):
         "gpg+see_also_unrelated": dict(gpg_sig(i, payload), see_also="ab" * 20),        # the hint names a key that appears nowhere in the hashed headers
         "gpg_hdr_time_only": gpg_sig(i, payload, hdr=bytes.fromhex("040016080006050260000000")),   # a conforming signer may hash the creation time only
         "gpg_hdr1": gpg_sig(i, payload, hdr=b"\x04"),
+        # valid per RFC 4880 framing (the trailer counts the octets actually hashed) although the header's own subpacket-length field says otherwise
+        "gpg_hdr_len_field_short": gpg_sig(i, payload, hdr=HDR[:4] + b"\x00\x03" + HDR[6:]),
+        "gpg_hdr_len_field_long": gpg_sig(i, payload, hdr=HDR[:4] + b"\x16\x08" + HDR[6:]),
         "raw_other_payload": raw_sig(i, other_payload),
         "gpg_other_payload": gpg_sig(i, other_payload),
         "raw_misfiled": raw_sig(j, payload),
